@@ -4,7 +4,7 @@
    each host (ok / refuse / hang in connect / hang mid-command), the watchdog, the integer clock.
    Every statement is for every number of targets, every fanout >= 1, every assignment of
    behaviours, every time-out setting and every admitted event sequence. *)
-From PV Require Import Dsh.Sys Dsh.SysFacts Dsh.SysProj Dsh.SysLive Dsh.SysClock.
+From PV Require Import Dsh.Sys Dsh.SysFacts Dsh.SysProj Dsh.SysLive Dsh.SysClock Dsh.SysMeasure.
 Local Open Scope Z_scope.
 
 (* ---- isolation: whatever the other hosts do, each target gets exactly one command ---- *)
@@ -65,6 +65,19 @@ Theorem C07_run_time_bounded : forall (c : cfg), 1 <= f c -> 0 < tconn c -> 0 < 
   now s <= t0 + (2 * Z.of_nat (ntgt c) + 1) * (Z.max (tconn c) (tcmd c) + Z.of_N WDOG_POLL).
 Proof. exact clock_bound. Qed.
 Print Assumptions C07_run_time_bounded.
+
+(* No livelock: from every reachable state, a stretch of the run without events of the environment (clock tick,
+   spurious wake-up of the dispatcher, arrival of a signal) is no longer than an explicit measure of that state
+   (4 * remaining worker steps + dispatcher phase + 5 * watchdog scan + signals thread phase); the watchdog period
+   must be positive (it is read from dsh.h into Generated/Params.v).  Faults and interrupts included. *)
+Theorem C07_no_livelock : forall (c : cfg), 1 <= f c -> 0 < Z.of_N WDOG_POLL -> forall t0 es1 s es s',
+  run c (init c t0) es1 = Some s -> exited s = None -> run c s es = Some s' -> no_env es = true ->
+  Z.of_nat (length es) <= mu c s.
+Proof. exact no_livelock_reachable. Qed.
+Print Assumptions C07_no_livelock.
+
+Example C07_watchdog_period_positive : 0 < Z.of_N WDOG_POLL.
+Proof. vm_compute. reflexivity. Qed.
 
 (* the executable test the trace acceptor applies at every tick of a maximal-progress run is sound for that notion *)
 Theorem C07_blocked_test_sound : forall (c : cfg) s, blockedb c s = true -> ~ can_move c s.
